@@ -286,22 +286,27 @@ func sameEvs(a, b []agentEv) bool {
 }
 
 // findLinearization: memoised DFS (Wing & Gong with the Lowe cache)
-func findLinearization(calls []*ccall) []int {
+// searchBudget bounds the memo table of one search: a history on which it is exhausted is counted and
+// skipped (nothing is claimed about it), never reported
+const searchBudget = 3000000
+
+func findLinearization(calls []*ccall) ([]int, bool) {
+	exhausted := false
 	n := len(calls)
 	done := make([]bool, n)
 	order := make([]int, 0, n)
 	seen := map[string]bool{}
+	bits := make([]byte, (n+7)/8)
 	keyOf := func(st *specState) string {
-		var b strings.Builder
-		for _, d := range done {
+		for i := range bits {
+			bits[i] = 0
+		}
+		for i, d := range done {
 			if d {
-				b.WriteByte('1')
-			} else {
-				b.WriteByte('0')
+				bits[i/8] |= 1 << uint(i%8)
 			}
 		}
-		b.WriteString(st.key())
-		return b.String()
+		return string(bits) + st.key()
 	}
 	var dfs func(st *specState) bool
 	dfs = func(st *specState) bool {
@@ -310,6 +315,10 @@ func findLinearization(calls []*ccall) []int {
 		}
 		k := keyOf(st)
 		if seen[k] {
+			return false
+		}
+		if len(seen) >= searchBudget {
+			exhausted = true
 			return false
 		}
 		seen[k] = true
@@ -340,9 +349,9 @@ func findLinearization(calls []*ccall) []int {
 		return false
 	}
 	if dfs(&specState{tbl: map[int]int{}, handler: 1}) {
-		return order
+		return order, false
 	}
-	return nil
+	return nil, exhausted
 }
 
 // one call on a case line: inv, res, |op|, op..., then the observation: ret, number of events, events
@@ -389,7 +398,7 @@ func execLinCheck(o *out, f [][]int) []int {
 func runC14(o *out, thorough bool, r *rng, _ []string) map[string]interface{} {
 	n := 1500
 	if thorough {
-		n = 30000
+		n = 12000
 	}
 	type job struct {
 		seed              uint64
@@ -401,11 +410,12 @@ func runC14(o *out, thorough bool, r *rng, _ []string) map[string]interface{} {
 		jobs[i] = job{seed: r.u64() % (1 << 40), ngo: r.rangeIn(2, 16), ncalls: r.rangeIn(2, 6), nids: r.rangeIn(1, 4), reenter: r.chance(2, 3)}
 	}
 	type result struct {
-		calls   []*ccall
-		stuck   bool
-		dump    string
-		order   []int
-		skipped bool
+		calls     []*ccall
+		stuck     bool
+		dump      string
+		order     []int
+		skipped   bool
+		exhausted bool
 	}
 	results := make([]result, n)
 	var stuckCount atomic.Int32 // after 3 blocked scenarios the rest are skipped: each costs the watchdog delay
@@ -429,7 +439,7 @@ func runC14(o *out, thorough bool, r *rng, _ []string) map[string]interface{} {
 			}
 			res := result{calls: calls, stuck: stuck, dump: dump}
 			if !stuck {
-				res.order = findLinearization(calls)
+				res.order, res.exhausted = findLinearization(calls)
 			}
 			results[i] = res
 		}(i)
@@ -441,6 +451,10 @@ func runC14(o *out, thorough bool, r *rng, _ []string) map[string]interface{} {
 		desc := fmt.Sprintf("seed=%d goroutines=%d calls=%d ids=%d reenter=%v", j.seed, j.ngo, j.ncalls, j.nids, j.reenter)
 		if res.skipped {
 			o.count("scenarios:skipped-after-3-blocked")
+			continue
+		}
+		if res.exhausted {
+			o.count("scenarios:search-budget-exhausted (skipped, nothing claimed)")
 			continue
 		}
 		if res.stuck {
